@@ -168,7 +168,43 @@ class Battery(object):
         for name in ("c08", "c09", "c16", "c18", "c19"):
             if name in self.checks:
                 getattr(self, "check_" + name)(W, st, root, "suspended")
+        if "c16" in self.checks:
+            self.c16_outermost(W, root, st)
+            for g in W.genlikes[:6]:
+                if not gen_running(g):
+                    self.c16_outermost(W, g, None)
         return st
+
+    def c16_outermost(self, W, x, st):
+        """extract_outermost(x) equals extract(x).frames[0]; raises iff there are no frames."""
+        import stackscope
+
+        if st is None:
+            st = stackscope.extract(x)
+        self.ctx.stat("c16_outermost_checked")
+        try:
+            fo = stackscope.extract_outermost(x)
+        except Exception as e:
+            if st.frames:
+                raise Violation("c16_outermost_raises", "extract_outermost(%s) raises %r but extract() has %d frames" % (type(x).__name__, e, len(st.frames)), {})
+            if st.error is not None and (type(e) is not type(st.error) or str(e) != str(st.error)):
+                raise Violation("c16_outermost_wrong_error", "extract_outermost raised %r, extract().error is %r" % (e, st.error), {})
+            self.ctx.stat("c16_outermost_raised_on_frameless")
+            return
+        if not st.frames:
+            raise Violation("c16_outermost_no_raise", "extract(%s) has no frames but extract_outermost returned %r" % (type(x).__name__, fo), {})
+        f0 = st.frames[0]
+        same = (
+            fo.pyframe is f0.pyframe
+            and fo.lineno == f0.lineno
+            and fo.hide == f0.hide
+            and fo.hide_line == f0.hide_line
+            and fo.origin is f0.origin
+            and len(fo.contexts) == len(f0.contexts)
+            and all(a.obj is b.obj and a.is_async == b.is_async and a.is_exiting == b.is_exiting and a.varname == b.varname and a.start_line == b.start_line for a, b in zip(fo.contexts, f0.contexts))
+        )
+        if not same:
+            raise Violation("c16_outermost_differs", "extract_outermost(%s) differs from extract().frames[0]: %r vs %r" % (type(x).__name__, fo, f0), {})
 
     # ---- running frames (probe) ----
     def on_probe(self, W, F, pid, where):
@@ -234,6 +270,11 @@ class Battery(object):
         for name in ("c08", "c09", "c16", "c18", "c19"):
             if name in self.checks:
                 getattr(self, "check_" + name)(W, st, None, "running")
+        if "c16" in self.checks and gen_running(W.root) and outer is W.frames[0].pyframe:
+            # the root task is running and we are inside it: extract(root task)
+            st2 = stackscope.extract(W.root)
+            self.check_c16(W, st2, W.root, "running_root")
+            self.c16_outermost(W, W.root, st2)
         return st
 
     def compare_running(self, W, rec, contexts, where, unlinked):
@@ -256,3 +297,293 @@ class Battery(object):
                 {"state": "exit_frame_unlinked", "frame": repr(rec)},
             )
         compare_exact(W, rec, contexts, "c02", where)
+
+    # ------------------------------------------------------------------
+    # C08: start_line / varname
+    def aligned(self, W, f):
+        """[(Context, Entry)] when the frame's contexts line up with the shadow."""
+        rec = W.rec_of(f.pyframe)
+        if rec is None or len(rec.shadow) != len(f.contexts):
+            return rec, None
+        for c, e in zip(f.contexts, rec.shadow):
+            if c.obj is not e.mgr:
+                return rec, None
+        return rec, list(zip(f.contexts, rec.shadow))
+
+    def check_c08(self, W, st, root, mode):
+        ctx = self.ctx
+        for f in walk_frames(st):
+            rec, pairs = self.aligned(W, f)
+            if not pairs:
+                continue
+            for c, e in pairs:
+                info = W.prog.items.get((rec.name, e.k))
+                if info is None:
+                    continue
+                ctx.stat("c08_contexts_checked")
+                ctx.cover(("c08", PY, info.get("layout"), info.get("nitems"), target_class(info), bool(info["is_async"])))
+                ctx.log("c08", rec.id, e.k, c.start_line, c.varname)
+                if c.start_line != info["line"]:
+                    raise Violation(
+                        "c08_start_line",
+                        "%s item k=%d of %s: start_line=%r, the with keyword is on line %r (layout %r, %d items)"
+                        % (mode, e.k, rec.name, c.start_line, info["line"], info.get("layout"), info.get("nitems", 1)),
+                        {"layout": info.get("layout"), "nitems": info.get("nitems")},
+                    )
+                tgt = info["target"]
+                v = c.varname
+                if tgt is not None and info["supported"]:
+                    if v is None:
+                        raise Violation("c08_varname_dropped", "%s item k=%d of %s: target %r (supported form) rendered as None" % (mode, e.k, rec.name, tgt), {"target": tgt})
+                    if not expr_equal(v, tgt):
+                        raise Violation("c08_varname_wrong", "%s item k=%d of %s: target %r rendered as %r" % (mode, e.k, rec.name, tgt, v), {"target": tgt, "varname": v})
+                else:
+                    if v is None:
+                        continue
+                    if tgt is not None and expr_equal(v, tgt):
+                        continue
+                    loc = f.pyframe.f_locals
+                    if v in loc and loc[v] is c.obj:
+                        ctx.stat("c08_fallback_local")
+                        continue
+                    raise Violation(
+                        "c08_varname_wrong",
+                        "%s item k=%d of %s: target %r (no reconstructible target) rendered as %r, which is neither the target nor a local bound to the manager"
+                        % (mode, e.k, rec.name, tgt, v),
+                        {"target": tgt, "varname": v},
+                    )
+
+    # ------------------------------------------------------------------
+    # C09: generator-based managers and exit stacks
+    def check_c09(self, W, st, root, mode, top=True):
+        import contextlib
+
+        ctx = self.ctx
+        GCM = contextlib._GeneratorContextManagerBase
+        main = [f.pyframe for f in st.frames]
+        for idx, f in enumerate(st.frames):
+            rec, pairs = self.aligned(W, f)
+            if not pairs:
+                continue
+            for c, e in pairs:
+                self.c09_context(W, c, e.mgr, e.state == "exiting", main, idx, mode)
+
+    def c09_context(self, W, c, mgr, exiting, main, idx, mode):
+        import contextlib
+
+        ctx = self.ctx
+        GCM = contextlib._GeneratorContextManagerBase
+        if isinstance(mgr, GCM):
+            ctx.stat("c09_gcm_checked")
+            gen = mgr.gen
+            chain = gen_chain(gen)
+            if not exiting:
+                ctx.cover(("c09", "gcm", PY, mode, len(chain), hasattr(gen, "ag_frame")))
+                if c.inner_stack is None:
+                    raise Violation("c09_inner_stack_missing", "%s: non-exiting generator-based manager %s has no inner_stack" % (mode, mgr_name(W, mgr)), {})
+                got = [x.pyframe for x in c.inner_stack.frames]
+                if len(got) != len(chain) or any(a is not b for a, b in zip(got, chain)):
+                    raise Violation(
+                        "c09_inner_stack_frames",
+                        "%s: inner_stack of %s has frames %r, the generator chain is %r"
+                        % (mode, mgr_name(W, mgr), [x.f_code.co_name for x in got], [x.f_code.co_name for x in chain]),
+                        {},
+                    )
+                if c.inner_stack.error is not None:
+                    raise Violation("c09_inner_stack_error", "%s: inner_stack.error=%r" % (mode, c.inner_stack.error), {})
+                for x in c.inner_stack.frames:
+                    r2 = W.rec_of(x.pyframe)
+                    if r2 is not None:
+                        compare_exact(W, r2, x.contexts, "c09", mode + "/inner_stack")
+                        rr, pp = self.aligned(W, x)
+                        for c2, e2 in pp or []:
+                            self.c09_context(W, c2, e2.mgr, e2.state == "exiting", [], 0, mode + "/inner")
+            else:
+                ctx.cover(("c09", "gcm_exiting", PY, mode))
+                if c.inner_stack is not None:
+                    raise Violation("c09_inner_stack_while_exiting", "%s: exiting generator-based manager %s has an inner_stack" % (mode, mgr_name(W, mgr)), {})
+                if main and chain:
+                    later = main[idx + 1:]
+                    linked = bool(later) and self.exit_linked(later[0], mgr)
+                    if linked and not any(x is chain[0] for x in later):
+                        raise Violation(
+                            "c09_exiting_frames_not_in_main_series",
+                            "%s: generator frame of exiting manager %s not found in the main frame series after its frame" % (mode, mgr_name(W, mgr)),
+                            {},
+                        )
+        elif hasattr(mgr, "vs_expected_children"):
+            ctx.stat("c09_es_checked")
+            exp = mgr.vs_expected_children()
+            got = list(c.children)
+            ctx.cover(("c09", "es", PY, mode, tuple(r["method"] for r in exp), exiting))
+            if len(got) != len(exp):
+                raise Violation(
+                    "c09_es_children_count",
+                    "%s: exit stack %s has %d children reported, %d registered and not yet run (%r)"
+                    % (mode, mgr_name(W, mgr), len(got), len(exp), [r["method"] for r in exp]),
+                    {},
+                )
+            for i, (ch, r) in enumerate(zip(got, exp)):
+                if not hasattr(ch, "is_async") or hasattr(ch, "frames"):
+                    raise Violation("c09_es_child_type", "child %d is %r, not a Context" % (i, type(ch).__name__), {})
+                o = ch.obj
+                okobj = o is r["obj"] or getattr(o, "__wrapped__", None) is r["obj"]
+                if not okobj:
+                    raise Violation(
+                        "c09_es_child_obj",
+                        "%s: child %d (%s) obj is %s, registered %s" % (mode, i, r["method"], mgr_name(W, o), mgr_name(W, r["obj"])),
+                        {"method": r["method"]},
+                    )
+                if bool(ch.is_async) != bool(r["is_async"]):
+                    raise Violation("c09_es_child_async", "%s: child %d (%s) is_async=%r" % (mode, i, r["method"], ch.is_async), {"method": r["method"]})
+                want = ES_DESCR[r["method"]]
+                d = ch.description or ""
+                if want not in d:
+                    raise Violation(
+                        "c09_es_child_description",
+                        "%s: child %d registered with %s is described as %r (expected it to name %r)" % (mode, i, r["method"], d, want),
+                        {"method": r["method"]},
+                    )
+                if isinstance(r["obj"], GCM):
+                    self.c09_context(W, ch, r["obj"], False, [], 0, mode + "/es_child")
+
+    def exit_linked(self, nxt, mgr):
+        co = nxt.f_code
+        if not co.co_argcount:
+            return False
+        return nxt.f_locals.get(co.co_varnames[0]) is mgr
+
+    # ------------------------------------------------------------------
+    # C16: origin / extract_outermost
+    def check_c16(self, W, st, root, mode):
+        import weakref
+        import stackscope
+
+        ctx = self.ctx
+        owners = {}
+        for g in list(W.genlikes) + [W.root]:
+            for attr in ("cr_frame", "gi_frame", "ag_frame"):
+                fr = getattr(g, attr, None)
+                if fr is not None:
+                    owners[id(fr)] = g
+        for m in W.all_mgrs:
+            g = getattr(m, "gen", None)
+            if g is not None:
+                for attr in ("gi_frame", "ag_frame"):
+                    fr = getattr(g, attr, None)
+                    if fr is not None:
+                        owners[id(fr)] = g
+        for f in walk_frames(st):
+            o = f.origin
+            ctx.stat("c16_frames_checked")
+            ctx.cover(("c16", PY, mode, type(o).__name__, W.rec_of(f.pyframe) is not None))
+            if o is not None:
+                try:
+                    weakref.ref(o)
+                except TypeError:
+                    raise Violation("c16_origin_not_weakrefable", "origin %r of frame %s cannot be weakly referenced" % (type(o).__name__, f.funcname), {})
+                try:
+                    fo = stackscope.extract_outermost(o)
+                except Exception as e:
+                    raise Violation(
+                        "c16_origin_does_not_recover_frame",
+                        "%s: frame %s has origin %s but extract_outermost(origin) raises %r" % (mode, f.funcname, type(o).__name__, e),
+                        {"origin_type": type(o).__name__},
+                    )
+                if fo.pyframe is not f.pyframe:
+                    raise Violation(
+                        "c16_origin_does_not_recover_frame",
+                        "%s: frame %s (line %s) has origin %s, but extract_outermost(origin).pyframe is frame %s"
+                        % (mode, f.funcname, f.lineno, type(o).__name__, fo.funcname),
+                        {"origin_type": type(o).__name__, "mode": mode},
+                    )
+            g = owners.get(id(f.pyframe))
+            if g is not None and mode == "suspended" and not gen_running(g):
+                if o is not g:
+                    raise Violation(
+                        "c16_origin_missing",
+                        "%s: frame %s is the frame of a suspended %s but origin is %r" % (mode, f.funcname, type(g).__name__, type(o).__name__),
+                        {},
+                    )
+
+
+ES_DESCR = {
+    "enter_context": ".enter_context(",
+    "push_mgr": ".enter_context(",  # contextlib stores the same bound __exit__ for both
+    "push_fn": ".push(",
+    "push_method": ".push(",
+    "callback": ".callback(",
+    "enter_async_context": ".enter_async_context(",
+    "push_async_exit_mgr": ".enter_async_context(",
+    "push_async_exit_fn": ".push_async_exit(",
+    "push_async_exit_method": ".push_async_exit(",
+    "push_async_callback": ".push_async_callback(",
+}
+
+
+def gen_running(g):
+    for a in ("gi_running", "cr_running"):
+        if getattr(g, a, False):
+            return True
+    if getattr(g, "ag_running", False) and getattr(g, "ag_await", None) is None:
+        return True
+    return False
+
+
+def gen_chain(gen):
+    """Frames of a suspended generator / async generator and what it delegates to."""
+    out = []
+    seen = 0
+    while gen is not None and seen < 50:
+        seen += 1
+        fr = getattr(gen, "gi_frame", None) or getattr(gen, "ag_frame", None) or getattr(gen, "cr_frame", None)
+        if fr is None:
+            break
+        out.append(fr)
+        nxt = None
+        if getattr(gen, "gi_running", False) or getattr(gen, "cr_running", False) or getattr(gen, "ag_running", False):
+            # never read gi_yieldfrom / ag_await of a running generator: on
+            # CPython 3.12.1 that can return a garbage pointer (interpreter bug)
+            break
+        for a in ("gi_yieldfrom", "ag_await", "cr_await"):
+            if hasattr(gen, a):
+                nxt = getattr(gen, a)
+                break
+        gen = nxt if (hasattr(nxt, "gi_frame") or hasattr(nxt, "ag_frame") or hasattr(nxt, "cr_frame")) else None
+    return out
+
+
+def target_class(info):
+    t = info.get("target")
+    if t is None:
+        return "none" if not info.get("prebound") else "prebound"
+    if not info.get("supported"):
+        return "unsupported"
+    for ch, name in (("*", "starred"), ("(", "tuple_or_call"), ("[", "subscript_or_list"), (".", "attr")):
+        if ch in t:
+            return name
+    return "cell" if t.startswith("cx") else "name"
+
+
+class _Norm(ast.NodeTransformer):
+    def visit_List(self, node):
+        self.generic_visit(node)
+        return ast.Tuple(elts=node.elts, ctx=ast.Load())
+
+    def visit_Name(self, node):
+        return ast.Name(id=node.id, ctx=ast.Load())
+
+    def generic_visit(self, node):
+        node = ast.NodeTransformer.generic_visit(self, node)
+        if hasattr(node, "ctx"):
+            node.ctx = ast.Load()
+        return node
+
+
+def expr_equal(a, b):
+    try:
+        ta = _Norm().visit(ast.parse(a.strip(), mode="eval"))
+        tb = _Norm().visit(ast.parse(b.strip(), mode="eval"))
+    except SyntaxError:
+        return False
+    return ast.dump(ta) == ast.dump(tb)
